@@ -84,6 +84,12 @@ pub fn guard<T>(f: impl FnOnce() -> T) -> Result<T, String> {
     }
 }
 
+/// Panics that mean "more than usize::MAX zero-sized elements": resource exhaustion, which the
+/// reference models do not contain (only consulted for zero-sized-element compositions).
+pub fn exhaustion(p: &str) -> bool {
+    p.contains("capacity overflow") || (p.contains("attempt to add with overflow") && p.contains("iter/traits/accum.rs"))
+}
+
 fn safe_step(m: &mut dyn Machine, op: OpId) -> Step {
     match guard(|| m.step(op)) {
         Ok(s) => s,
